@@ -54,7 +54,14 @@ func init() {
 			}
 			sh = append(sh, Shard{Kind: "purity", Tier: tier, Seed: seed})
 			sh = append(sh, yearShards(tier, seed, 9998, "adjcache")...)
-			sh = append(sh, Shard{Kind: "race", Tier: tier, Seed: seed})
+			for o := 0; o < 4; o++ {
+				for ord := 0; ord < 5; ord++ {
+					sh = append(sh, Shard{Kind: "orders", Arg: fmt.Sprintf("%d,%d", o, ord), Tier: tier, Seed: seed})
+				}
+			}
+			for part := 0; part < 4; part++ {
+				sh = append(sh, Shard{Kind: "race", Arg: fmt.Sprintf("%d/4", part), Tier: tier, Seed: seed})
+			}
 			return sh
 		},
 		Run: runC09,
@@ -226,6 +233,8 @@ func runC09(w *W) {
 		c09Purity(w)
 	case "adjcache":
 		c09AdjCache(w)
+	case "orders":
+		c09Orders(w)
 	case "race":
 		c09Race(w)
 	}
@@ -650,7 +659,7 @@ func c09Race(w *W) {
 		return
 	}
 	reps := "20"
-	cmd := exec.Command(race, "racepass", reps, w.Shard.Tier)
+	cmd := exec.Command(race, "racepass", reps, w.Shard.Tier, w.Shard.Arg)
 	var stderr, stdout bytes.Buffer
 	cmd.Stderr, cmd.Stdout = &stderr, &stdout
 	cmd.Env = append(os.Environ(), "GORACE=halt_on_error=0", "GOMAXPROCS=16", "VERIF_IS_RACE_BINARY=1")
@@ -731,10 +740,24 @@ func sharedObjects() map[string]interface{} {
 }
 
 // racePassMain runs in the -race binary: every scenario's thread bodies on real goroutines, free-running.
-func racePassMain(reps int, tier string) {
+func racePassMain(reps int, tier string, partOf string) {
+	part, of, scn := 0, 1, 0
+	fmt.Sscanf(partOf, "%d/%d", &part, &of)
+	if of < 1 {
+		of = 1
+	}
+	mine := func() bool { scn++; return (scn-1)%of == part }
 	// read-only accessor sweeps on shared objects: 4 goroutines call every exported zero-argument method of one shared instance
 	shallowSlices = true
+	var objNames []string
 	for name := range sharedObjects() {
+		objNames = append(objNames, name)
+	}
+	sort.Strings(objNames)
+	for _, name := range objNames {
+		if !mine() {
+			continue
+		}
 		fmt.Fprintf(os.Stderr, "SCENARIO shared-accessors[%s] [all zero-argument methods x 8 goroutines, rotated start]\n", name)
 		n := reps * 2
 		if strings.HasPrefix(name, "Lunar") && !strings.HasPrefix(name, "LunarYear") && !strings.HasPrefix(name, "LunarMonth") {
@@ -781,6 +804,9 @@ func racePassMain(reps int, tier string) {
 	ops := c09SchedOps()
 	for _, sc := range c09Scenarios() {
 		if len(sc.threads) == 2 && len(sc.threads[0]) == 2 && tier != "thorough" {
+			continue
+		}
+		if !mine() {
 			continue
 		}
 		fmt.Fprintf(os.Stderr, "SCENARIO %s %v\n", sc.name, opNames(ops, sc.threads))
@@ -1081,5 +1107,115 @@ func c09AdjCache(w *W) {
 				w.Sample(map[string]interface{}{"year": y, "calls": len(calls), "cache_primed_with": []int{y - 1, y + 1, y + 2}})
 			}
 		}
+	}
+}
+
+// c09Orders: order independence of a broad probe over many states inside ONE process. The same probe (civil strings,
+// weekday, sign, festivals, lunar rendering, pillars, terms, Taoist/Buddhist strings, day star, holiday, pay rate) is
+// evaluated on every day of a year subset in several visiting orders chosen to make inputs that share a coarse key
+// adjacent: ascending (reference), descending, by (civil month, day, year), by (lunar month, day, year) and by
+// (year mod 400, month, day, year). A library whose answers depend only on the arguments gives identical answers in
+// every order; a hidden cache keyed by a projection of the input (lunar year instead of civil year, year mod 400,
+// month and day without the year) does not. Shards are residue classes of the year mod 4, so years 400, 100, 60, 28
+// or 12 apart meet in one process.
+func c09Orders(w *W) {
+	var o, ord int
+	fmt.Sscanf(w.Shard.Arg, "%d,%d", &o, &ord)
+	in := map[int]bool{}
+	for _, r := range [][2]int{{1, 30}, {236, 240}, {1578, 1586}, {1898, 1902}, {1995, 2035}, {9994, 9998}} {
+		for y := r[0]; y <= r[1]; y++ {
+			in[y] = true
+		}
+	}
+	for y := 100; y <= 2400; y += 100 {
+		in[y] = true
+	}
+	for _, y := range []int{1182, 1582, 1982, 2382, 1500, 1900, 2300, 1984, 2044, 2024, 2052, 2001, 2012, 2020, 2023} {
+		in[y] = true
+	}
+	if w.Thorough() {
+		for _, y := range quickYears(w.Shard.Seed, 9998) {
+			in[y] = true
+		}
+		for y := 1; y <= 9998; y += 5 {
+			in[y] = true
+		}
+	}
+	var js []int
+	for y := range in {
+		if y%4 != o || y > 9998 {
+			continue
+		}
+		for j := r1JDN(y, 1, 1); j <= r1JDN(y, 12, 31); j++ {
+			js = append(js, j)
+		}
+	}
+	sort.Ints(js)
+	type st struct{ j, y, m, d, lm, ld int }
+	probe := func(j int) string {
+		y, m, d := r1FromJDN(j)
+		return safeDigest(func() string {
+			s := calendar.NewSolarFromYmd(y, m, d)
+			l := s.GetLunar()
+			var sb strings.Builder
+			sb.WriteString(s.ToYmd() + "|" + fmt.Sprint(s.GetWeek()) + "|" + s.GetXingZuo() + "|" + render1(s.GetFestivals()) + "|")
+			sb.WriteString(l.String() + "|" + l.GetYearInGanZhiExact() + l.GetMonthInGanZhiExact() + l.GetDayInGanZhi() + "|" + l.GetJieQi() + "|" + render1(l.GetFestivals()) + render1(l.GetOtherFestivals()) + "|")
+			sb.WriteString(l.GetTao().ToString() + "|" + l.GetFoto().ToString() + "|" + l.GetHou() + "|" + fmt.Sprint(l.GetPrevJie().GetSolar().ToYmdHms()) + "|")
+			if w.Thorough() || j%7 == 0 {
+				sb.WriteString(l.GetDayNineStar().String() + "|" + fmt.Sprint(s.GetSalaryRate()) + "|")
+			}
+			if h := HolidayUtil.GetHolidayByYmd(y, m, d); h != nil {
+				sb.WriteString(h.String())
+			}
+			return sb.String()
+		})
+	}
+	names := []string{"ascending", "descending", "by civil month, day, year", "by lunar month, day, year", "by year mod 400, month, day, year"}
+	// the sort keys use integer civil fields and the lunar month/day from the integer-free R1 side where possible;
+	// lunar month/day come from a throw-away conversion in a scheduler thread of their own
+	states := make([]st, len(js))
+	runSchedule(nil, []func(*thr){func(t *thr) {
+		for i, j := range js {
+			y, m, d := r1FromJDN(j)
+			lm, ld := 0, 0
+			if ord == 3 {
+				safeDigest(func() string {
+					l := calendar.NewSolarFromYmd(y, m, d).GetLunar()
+					lm, ld = l.GetMonth(), l.GetDay()
+					return ""
+				})
+			}
+			states[i] = st{j, y, m, d, lm, ld}
+		}
+	}}, nil, nil, resetHidden)
+	less := []func(a, b st) bool{
+		func(a, b st) bool { return a.j < b.j },
+		func(a, b st) bool { return a.j > b.j },
+		func(a, b st) bool { return a.m*40000000+a.d*100000+a.y < b.m*40000000+b.d*100000+b.y },
+		func(a, b st) bool { return (a.lm+20)*40000000+a.ld*100000+a.y < (b.lm+20)*40000000+b.ld*100000+b.y },
+		func(a, b st) bool {
+			return (a.y%400)*100000000+a.m*1000000+a.d*10000+a.y < (b.y%400)*100000000+b.m*1000000+b.d*10000+b.y
+		},
+	}[ord]
+	sort.SliceStable(states, func(a, b int) bool { return less(states[a], states[b]) })
+	// the probe pass itself, in this shard's order, in one thread of a fresh scheduler run (hidden state reset first);
+	// note: for order 3 the throw-away conversions above ran before the reset of the year cache but any *other* hidden
+	// state they created persists — which is fine: it only adds history
+	x := runSchedule(nil, []func(*thr){func(t *thr) {
+		for _, s := range states {
+			v := probe(s.j)
+			w.R.Transitions++
+			w.R.Traces++
+			w.R.Evals++
+			w.FDCheck("C09:order-independence", r1Ymd(s.j), hashStr(v), names[ord])
+		}
+	}}, nil, nil, resetHidden)
+	if x.deadlock {
+		w.Viol("C09:order:blocked", "the probe sweep left the library blocked", nil)
+	}
+	w.R.States += int64(len(js))
+	w.R.Nontrivial += int64(len(js))
+	if ord == 0 {
+		w.Sample(map[string]interface{}{"residue_class_mod_4": o, "days": len(js), "orders_each_in_its_own_process": names})
 	}
 }
